@@ -4,6 +4,9 @@
  *
  * Allocation regime <amode>:
  *   0  whatever the library does (coap_pdu_init allocates min(max_size,256), growth by doubling)
+ *   2  as 1, and (UDP only) the PDU is attached to a session and its header is encoded before the
+ *      first edit, so that coap_update_token takes its "fix up the header" branch; every dump then
+ *      shows the header bytes as they are in memory (h=)
  *   1  before EVERY edit the buffer is moved into a fresh allocation of exactly
  *      max_hdr_size + used_size bytes and alloc_size := used_size, so that every edit that needs
  *      even one more byte goes through coap_pdu_check_resize -> coap_pdu_resize -> realloc and
@@ -52,6 +55,7 @@ static coap_context_t *g_ctx;
 static coap_session_t *g_sess;
 
 static coap_proto_t g_proto;
+static int g_amode;
 
 static char *dump_str(const coap_pdu_t *pdu) {
   char *buf = NULL;
@@ -107,6 +111,11 @@ static void dump_b(FILE *o, coap_pdu_t *pdu) {
   dump_pdu(o, pdu);
   fputs("] b=", o);
   show_bytes(o, pdu->token, pdu->used_size);
+  /* regime 2: the PDU belongs to a session and its header has been written; coap_update_token then
+   * has to keep the header in step with the token length - show the header as it is in memory */
+  fputs(" h=", o);
+  if (g_amode == 2 && pdu->hdr_size) show_bytes(o, pdu->token - pdu->hdr_size, pdu->hdr_size);
+  else fputc('-', o);
   step_reparse(o, pdu);
 }
 
@@ -155,6 +164,7 @@ static void c04(void) {
   proto = proto_of(vtok[1]);
   g_proto = proto;
   amode = atoi(vtok[2]);
+  g_amode = 0;      /* the starting dump shows no header */
   mx = (size_t)atol(vtok[3]);
   i = 5;
   if (vtok[4][0] == 'B') {
@@ -229,13 +239,18 @@ static void c04(void) {
     fputs("start=P ", stdout);
   }
   dump_b(stdout, pdu);
+  if (amode == 2 && proto == COAP_PROTO_UDP && g_sess) {
+    pdu->session = g_sess;
+    coap_pdu_encode_header(pdu, proto);
+    g_amode = 2;
+  }
   if (i < vntok && vtok[i][0] == 'E') i++;
   while (i < vntok && vtok[i][0] != 'X') {
     size_t n = 0;
     uint8_t *b = NULL;
     int r = 0;
     char k = vtok[i][0];
-    if (amode == 1) exact_fit(pdu);
+    if (amode >= 1) exact_fit(pdu);
     if (k == 'I' && i + 2 < vntok) {
       b = bytes_of_tok(vtok[i + 2], &n);
       r = coap_insert_option(pdu, (coap_option_num_t)atoi(vtok[i + 1]), n, b) != 0;
